@@ -537,6 +537,7 @@ void SignalHandler::SetHandler(InterruptHandler handler, void *data) {
   // Never expose a handler paired with another registration's data:
   // disable the callback, replace the data, then publish the new handler.
   handler_ = 0;
+  MP_VERIF_POINT("sigh.sethandler.after_handler_clear");
   data_ = data;
   MP_VERIF_POINT("sigh.sethandler.after_data_store");
   handler_ = handler;
